@@ -112,11 +112,25 @@ theorem KidsIn.tail {inp : Input} {d : Option Url} {n : Node} {ns : List Node} (
 theorem NodeIn.kids {inp : Input} {d : Option Url} {n : Node} (h : NodeIn inp d n) : KidsIn inp d n.kids :=
   fun r hr => h r (refs_kids n hr)
 
-theorem KidsIn.elem {inp : Input} {u : Url} {f : File} (h : storeAt inp u = some f) : KidsIn inp (some u) f.elem := by
+theorem refsViews_mem {k : Kind} {ks : List Node} {r : Ref} :
+    ∀ {vs : List (Kind × List Node)}, assoc k vs = some ks → r ∈ refsList ks → r ∈ refsViews vs
+  | [], h, _ => by simp [assoc] at h
+  | (k', ks') :: rest, h, hr => by
+    unfold assoc at h
+    rw [refsViews]
+    split at h
+    · cases h; exact List.mem_append_left _ hr
+    · exact List.mem_append_right _ (refsViews_mem h hr)
+
+theorem KidsIn.elem {inp : Input} {u : Url} {f : File} (k : Kind) (h : storeAt inp u = some f) :
+    KidsIn inp (some u) (f.elemAs k) := by
   intro r hr
   rw [refsAt_of_docAt (storeAt_docAt h)]
   unfold File.refs
-  simp [hr]
+  unfold File.elemAs at hr
+  split at hr
+  · next ks hks => simp [refsViews_mem hks hr]
+  · simp [refsList] at hr
 
 theorem KidsIn.tops {inp : Input} {u : Url} {f : File} (h : storeAt inp u = some f) : KidsIn inp (some u) f.tops := by
   intro r hr
@@ -164,10 +178,10 @@ theorem Ext.trans {a b c : St} (h1 : Ext a b) (h2 : Ext b c) : Ext a c := fun u 
   unfold setMark; split <;> rfl
 @[simp] theorem setMark_foreign (c : Bool) (k : Key) (v : Val) (st : St) : (setMark c k v st).foreign = st.foreign := by
   unfold setMark; split <;> rfl
-@[simp] theorem addPend_log (c : Bool) (t : String) (k : Key) (st : St) : (addPend c t k st).log = st.log := by
+@[simp] theorem addPend_log (c : Bool) (t : String) (kd : Kind) (k : Key) (st : St) : (addPend c t kd k st).log = st.log := by
   unfold addPend; split <;> rfl
-@[simp] theorem unvisit_log (t : String) (v : Option Val) (st : St) : (unvisit t v st).log = st.log := rfl
-@[simp] theorem unvisit_foreign (t : String) (v : Option Val) (st : St) : (unvisit t v st).foreign = st.foreign := rfl
+@[simp] theorem unvisit_log (t : String) (kd : Kind) (v : Option Val) (st : St) : (unvisit t kd v st).log = st.log := rfl
+@[simp] theorem unvisit_foreign (t : String) (kd : Kind) (v : Option Val) (st : St) : (unvisit t kd v st).foreign = st.foreign := rfl
 @[simp] theorem logRead_log (al : Bool) (u : Url) (st : St) : (logRead al u st).log = st.log ++ [u] := rfl
 
 theorem Inv.tick {inp : Input} {st : St} (n : Nat) (h : Inv inp st) : Inv inp (tick n st) := ⟨h.marks, h.just, h.off, h.nfo⟩
@@ -176,8 +190,8 @@ theorem Inv.inprog {inp : Input} {st : St} (l : List String) (h : Inv inp st) : 
   ⟨h.marks, h.just, h.off, h.nfo⟩
 theorem Inv.docs {inp : Input} {st : St} (l : List Url) (h : Inv inp st) : Inv inp { st with docs := l } :=
   ⟨h.marks, h.just, h.off, h.nfo⟩
-theorem Inv.addPend {inp : Input} {st : St} (c : Bool) (t : String) (k : Key) (h : Inv inp st) :
-    Inv inp (addPend c t k st) := by
+theorem Inv.addPend {inp : Input} {st : St} (c : Bool) (t : String) (kd : Kind) (k : Key) (h : Inv inp st) :
+    Inv inp (addPend c t kd k st) := by
   unfold KinModel.Reads.addPend; split
   · exact h
   · exact ⟨h.marks, h.just, h.off, h.nfo⟩
@@ -192,8 +206,8 @@ theorem Inv.setMark {inp : Input} {st : St} (c : Bool) (k : Key) (v : Val) (h : 
     · subst e; exact hv
     · exact h.marks kv e
 
-theorem Inv.unvisit {inp : Input} {st : St} (t : String) (v : Option Val) (h : Inv inp st)
-    (hv : ∀ x, v = some x → ValOK inp st.log x) : Inv inp (unvisit t v st) := by
+theorem Inv.unvisit {inp : Input} {st : St} (t : String) (kd : Kind) (v : Option Val) (h : Inv inp st)
+    (hv : ∀ x, v = some x → ValOK inp st.log x) : Inv inp (unvisit t kd v st) := by
   refine ⟨?_, h.just, h.off, h.nfo⟩
   intro kv hkv
   cases v with
@@ -263,17 +277,17 @@ def PostB (inp : Input) (st : St) (out : St × Bool) : Prop := Inv inp out.1 ∧
 
 theorem guardExt_some {inp : Input} {cx : Cx} {home : Home} {r : Ref} {u : Url} {al : Bool}
     (h : guardExt inp cx home r = some (u, al)) :
-    inp.allowed = true ∧ u = resolvePath cx.path r.url ∧ (al = true → home.1 = cx.path) := by
+    inp.allowed = true ∧ u = resolvePath cx.path r.url ∧ (al = true → u = resolvePath home.1 r.url) := by
   unfold guardExt at h
   split at h
   · next ha =>
     simp only [Option.some.injEq, Prod.mk.injEq] at h
     refine ⟨ha, h.1.symm, ?_⟩
-    intro hal; rw [← h.2] at hal; exact of_decide_eq_true hal
+    intro hal; rw [← h.2] at hal; rw [← h.1]; exact of_decide_eq_true hal
   · cases h
 
-/-- a guarded read of the resolution of `r` (found in the document at `home`) is justified when
-    `documentPath` is that document's location -/
+/-- a guarded read of the resolution of `r` (found in the document at `home`) is justified when the location
+    obtained from `documentPath` is the resolution against that document's own location -/
 theorem guarded_read_justified {inp : Input} {st : St} {cx : Cx} {home : Home} {r : Ref} {u : Url} {al : Bool}
     (hg : guardExt inp cx home r = some (u, al)) (hh : Loaded inp st.log home.1)
     (hr : r ∈ refsAt inp home.1) (hf : r.form ≠ Form.internal) :
@@ -281,15 +295,14 @@ theorem guarded_read_justified {inp : Input} {st : St} {cx : Cx} {home : Home} {
   obtain ⟨ha, hu, hal⟩ := guardExt_some hg
   refine ⟨?_, ?_⟩
   · intro _ h
-    have := hal h
-    exact Or.inr ⟨home.1, hh, r, hr, hf, by rw [hu, this]⟩
+    exact Or.inr ⟨home.1, hh, r, hr, hf, hal h⟩
   · intro h; rw [ha] at h; cases h
 
-theorem drill_post {inp : Input} {st : St} {cx : Cx} {cdoc : Option Url} (frag : String) (kind : Kind)
-    (hI : Inv inp st) (hp : Loaded inp st.log cx.path) (hd : Loaded inp st.log cdoc) :
-    Inv inp (drill inp cx cdoc frag kind st).1 ∧ Ext st (drill inp cx cdoc frag kind st).1 ∧
-    ∀ thome t, (drill inp cx cdoc frag kind st).2 = some (thome, t) →
-      Loaded inp (drill inp cx cdoc frag kind st).1.log thome.1 ∧ NodeIn inp thome.1 t := by
+theorem drill_post {inp : Input} {st : St} {cdoc cpath : Option Url} (frag : String) (kind : Kind)
+    (hI : Inv inp st) (hp : Loaded inp st.log cpath) (hd : Loaded inp st.log cdoc) :
+    Inv inp (drill inp cdoc cpath frag kind st).1 ∧ Ext st (drill inp cdoc cpath frag kind st).1 ∧
+    ∀ thome t, (drill inp cdoc cpath frag kind st).2 = some (thome, t) →
+      Loaded inp (drill inp cdoc cpath frag kind st).1.log thome.1 ∧ NodeIn inp thome.1 t := by
   unfold drill
   split
   · next t ht =>
@@ -307,8 +320,8 @@ theorem drill_post {inp : Input} {st : St} {cx : Cx} {cdoc : Option Url} (frag :
     · exact ⟨hI.tick 9, Ext.refl st, by intro _ _ h; cases h⟩
   · split
     · exact ⟨hI.tick 17, Ext.refl st, by intro _ _ h; cases h⟩
-    · next p hpath =>
-      have hlp : Loaded inp st.log (some p) := by rw [← hpath]; exact hp
+    · next p =>
+      have hlp : Loaded inp st.log (some p) := hp
       have hrr := hI.reread p hlp
       split
       · exact ⟨hrr.tick 12, Ext.logRead true p st, by intro _ _ h; cases h⟩
@@ -376,12 +389,31 @@ theorem load_step {inp : Input} {f : Nat} (ihW : PWalk inp f) : PLoad inp (f + 1
         exact ⟨⟨hw.1, he.trans hw.2⟩, fun _ => hw.2 u hu⟩
       · exact ⟨⟨(hrd.docs _).tick 13, he⟩, fun _ => hu⟩
 
+/-- the common tail of every resolver: assign the value, walk its sub-elements with the context `wcx`, run the
+    deferred `unvisitRef` -/
+theorem walk_mark_unvisit {inp : Input} {f : Nat} (ihW : PWalk inp f) {st st2 : St} (wcx : Cx) (key : Key)
+    (copy : Bool) (text : String) (kind : Kind) (val : Val)
+    (hI2 : Inv inp st2) (he : Ext st st2) (hv : ValOK inp st2.log val)
+    (hp : Loaded inp st2.log wcx.path) (hd : Loaded inp st2.log wcx.doc) :
+    PostR inp st
+      (match walk inp f wcx val.1 val.2 (setMark copy key val st2) with
+       | (st3, ok) => (unvisit text kind (some val) st3, okRes ok val)) := by
+  have hw := ihW wcx val.1 val.2 (setMark copy key val st2) (hI2.setMark copy _ _ hv)
+    ⟨by simpa using hp, by simpa using hd, by simpa using hv.1⟩ hv.2
+  generalize walk inp f wcx val.1 val.2 (setMark copy key val st2) = out at hw ⊢
+  obtain ⟨st3, ok⟩ := out
+  have he3 : Ext st2 st3 := by intro x hx; exact hw.2 x (by simpa using hx)
+  have hv3 : ValOK inp st3.log val := hv.mono he3
+  refine ⟨hw.1.unvisit text kind (some val) (by intro x hx; cases hx; exact hv3), ?_, ?_⟩
+  · intro x hx; simpa using he3 x (he x hx)
+  · intro v h; rw [okRes_val h]; simpa using hv3
+
 theorem frag_step {inp : Input} {f : Nat} (ihR : PResolve inp f) (ihW : PWalk inp f) : PFrag inp (f + 1) := by
   intro cx home copy id kind r cdoc cpath st hI hC hcd hcp
   simp only [fragStep]
   split
   · exact ⟨hI.tick 14, Ext.refl st, by intro _ h; cases h⟩
-  · have hd := drill_post (cx := cx) (cdoc := cdoc) r.frag kind hI hC.path hcd
+  · have hd := drill_post (cdoc := cdoc) (cpath := cpath) r.frag kind hI hcp hcd
     split
     · next st1 heq => rw [heq] at hd; exact ⟨hd.1, hd.2.1, by intro _ h; cases h⟩
     · next st1 thome t heq =>
@@ -389,25 +421,35 @@ theorem frag_step {inp : Input} {f : Nat} (ihR : PResolve inp f) (ihW : PWalk in
       obtain ⟨hI1, he1, ht⟩ := hd
       obtain ⟨hlt, hnt⟩ := ht thome t rfl
       simp only at hI1 he1 hlt
+      -- the recursive call on the copy, with (componentDoc, componentPath)
+      have hr := ihR ⟨cdoc, cpath⟩ thome true t st1 hI1 ⟨hcp.ext he1, hcd.ext he1, hlt⟩ hnt
       split
       · -- path item: (doc, documentPath) are re-assigned
-        have hv : ValOK inp st1.log (thome, t.kids) := ⟨hlt, hnt.kids⟩
-        have hw := ihW ⟨cdoc, cpath⟩ thome t.kids (setMark copy (home, id) (thome, t.kids) (tick 10 st1))
-          ((hI1.tick 10).setMark copy _ _ hv)
-          ⟨by simpa using hcp.ext he1, by simpa using hcd.ext he1, by simpa using hlt⟩ hnt.kids
-        generalize walk inp f ⟨cdoc, cpath⟩ thome t.kids (setMark copy (home, id) (thome, t.kids) (tick 10 st1)) = out at hw ⊢
-        obtain ⟨st2, ok⟩ := out
-        · have he2 : Ext st1 st2 := by intro x hx; exact hw.2 x (by simpa using hx)
-          have hv2 : ValOK inp st2.log (thome, t.kids) := hv.mono he2
-          refine ⟨hw.1.unvisit r.text (some (thome, t.kids)) (by intro x hx; cases hx; exact hv2), ?_, ?_⟩
-          · intro x hx; simpa using he2 x (he1 x hx)
-          · intro v h; rw [okRes_val h]; simpa using hv2
-      · have hr := ihR ⟨cdoc, cpath⟩ thome true t st1 hI1 ⟨hcp.ext he1, hcd.ext he1, hlt⟩ hnt
         split
+        · have hv : ValOK inp st1.log (thome, t.kids) := ⟨hlt, hnt.kids⟩
+          exact walk_mark_unvisit ihW ⟨cdoc, cpath⟩ (home, id) copy r.text kind (thome, t.kids)
+            (hI1.tick 10) (by intro x hx; simpa using he1 x hx) (by simpa using hv)
+            (by simpa using hcp.ext he1) (by simpa using hcd.ext he1)
+        · split
+          · next st2 heq2 => rw [heq2] at hr; exact ⟨hr.1, he1.trans hr.2.1, by intro _ h; cases h⟩
+          · next st2 heq2 =>
+            rw [heq2] at hr
+            refine ⟨(hr.1.unvisit _ _ none (by intro _ h; cases h)).tick 19, ?_, by intro _ h; cases h⟩
+            intro x hx; simpa using hr.2.1 x (he1 x hx)
+          · next st2 val heq2 =>
+            rw [heq2] at hr
+            obtain ⟨hI2, he2, hv2⟩ := hr
+            have hv : ValOK inp st2.log val := hv2 val rfl
+            simp only at hI2 he2 hv
+            have he02 : Ext st st2 := he1.trans he2
+            exact walk_mark_unvisit ihW ⟨cdoc, cpath⟩ (home, id) copy r.text kind val
+              (hI2.tick 20) (by intro x hx; simpa using he02 x hx) (by simpa using hv)
+              (by simpa using hcp.ext he02) (by simpa using hcd.ext he02)
+      · split
         · next st2 heq2 => rw [heq2] at hr; exact ⟨hr.1, he1.trans hr.2.1, by intro _ h; cases h⟩
         · next st2 heq2 =>
           rw [heq2] at hr
-          refine ⟨(hr.1.unvisit _ none (by intro _ h; cases h)).tick 16, ?_, by intro _ h; cases h⟩
+          refine ⟨(hr.1.unvisit _ _ none (by intro _ h; cases h)).tick 16, ?_, by intro _ h; cases h⟩
           intro x hx; simpa using hr.2.1 x (he1 x hx)
         · next st2 val heq2 =>
           rw [heq2] at hr
@@ -415,15 +457,8 @@ theorem frag_step {inp : Input} {f : Nat} (ihR : PResolve inp f) (ihW : PWalk in
           have hv : ValOK inp st2.log val := hv2 val rfl
           simp only at hI2 he2 hv
           have he02 : Ext st st2 := he1.trans he2
-          have hw := ihW cx val.1 val.2 (setMark copy (home, id) val st2) (hI2.setMark copy _ _ hv)
-            ⟨by simpa using hC.path.ext he02, by simpa using hC.doc.ext he02, by simpa using hv.1⟩ hv.2
-          generalize walk inp f cx val.1 val.2 (setMark copy (home, id) val st2) = out at hw ⊢
-          obtain ⟨st3, ok⟩ := out
-          · have he3 : Ext st2 st3 := by intro x hx; exact hw.2 x (by simpa using hx)
-            have hv3 : ValOK inp st3.log val := hv.mono he3
-            refine ⟨hw.1.unvisit r.text (some val) (by intro x hx; cases hx; exact hv3), ?_, ?_⟩
-            · intro x hx; simpa using he3 x (he02 x hx)
-            · intro v h; rw [okRes_val h]; simpa using hv3
+          exact walk_mark_unvisit ihW cx (home, id) copy r.text kind val hI2 he02 hv
+            (hC.path.ext he02) (hC.doc.ext he02)
 
 theorem resolve_step {inp : Input} {f : Nat} (ihF : PFrag inp f) (ihW : PWalk inp f) (ihL : PLoad inp f) :
     PResolve inp (f + 1) := by
@@ -449,7 +484,7 @@ theorem resolve_step {inp : Input} {f : Nat} (ihF : PFrag inp f) (ihW : PWalk in
       intro w h; cases h
       exact hI.marks _ (mem_assoc hv)
     · split
-      · exact ⟨(hI.addPend copy r.text (home, id)).tick 2, by intro x hx; simpa using hx, by intro _ h; cases h⟩
+      · exact ⟨(hI.addPend copy r.text kind (home, id)).tick 2, by intro x hx; simpa using hx, by intro _ h; cases h⟩
       · have hI0 : Inv inp { st with inprog := r.text :: st.inprog } := hI.inprog _
         split
         · -- .whole: loadSingleElementFromURI
@@ -468,28 +503,11 @@ theorem resolve_step {inp : Input} {f : Nat} (ihF : PFrag inp f) (ihW : PWalk in
             · next file hfile =>
               split
               · have hv : ValOK inp (logRead al u { st with inprog := r.text :: st.inprog }).log
-                    ((some u, st.log.length + 1), file.elem) := ⟨Loaded.here hu, KidsIn.elem hfile⟩
-                have hw := ihW (if kind.updatesPath then ⟨cx.doc, some u⟩ else cx) (some u, st.log.length + 1) file.elem
-                  (setMark copy (home, id) ((some u, st.log.length + 1), file.elem)
-                    (tick 4 (logRead al u { st with inprog := r.text :: st.inprog })))
-                  ((hrd.tick 4).setMark copy _ _ hv)
-                  (by
-                    have hc := hC.ext he
-                    split
-                    · exact ⟨by simpa using Loaded.here hu, by simpa using hc.doc, by simpa using Loaded.here hu⟩
-                    · exact ⟨by simpa using hc.path, by simpa using hc.doc, by simpa using Loaded.here hu⟩)
-                  (KidsIn.elem hfile)
-                generalize walk inp f (if kind.updatesPath then ⟨cx.doc, some u⟩ else cx) (some u, st.log.length + 1) file.elem
-                  (setMark copy (home, id) ((some u, st.log.length + 1), file.elem)
-                    (tick 4 (logRead al u { st with inprog := r.text :: st.inprog }))) = out at hw ⊢
-                obtain ⟨st1, ok⟩ := out
-                have he1 : Ext (logRead al u { st with inprog := r.text :: st.inprog }) st1 := by
-                  intro x hx; exact hw.2 x (by simpa using hx)
-                have hv1 := hv.mono he1
-                refine ⟨hw.1.unvisit r.text (some ((some u, st.log.length + 1), file.elem))
-                  (by intro x hx; cases hx; exact hv1), ?_, ?_⟩
-                · intro x hx; simpa using he1 x (he x hx)
-                · intro v h; rw [okRes_val h]; simpa using hv1
+                    ((some u, st.log.length + 1), file.elemAs kind) := ⟨Loaded.here hu, KidsIn.elem kind hfile⟩
+                exact walk_mark_unvisit ihW ⟨cx.doc, some u⟩ (home, id) copy r.text kind
+                  ((some u, st.log.length + 1), file.elemAs kind) (hrd.tick 4)
+                  (by intro x hx; simpa using he x hx) (by simpa using hv)
+                  (by simpa using Loaded.here hu) (by simpa using (hC.ext he).doc)
               · exact ⟨hrd.tick 13, he, by intro _ h; cases h⟩
         · -- .internal
           next hform =>
